@@ -138,6 +138,8 @@ def run(tier):
     for pr_ in gp_:
         rep.unprovable("C06.operand|grammar-cross-check", pr_)
     rules_C05.char_literal(P, g_, rep, "C06.operand|char-constant")
+    # ... and a number written in the source is its exact value or a syntax error (never wrapped into the element's range)
+    rules_C05.number_literal_types(P, 5, rep, "C06.operand|number-literal")
     # ---- 2b. the length the padding and the addresses are computed from is the number of bytes emitted
     fn = "directive::Operand::len"
     if fn in P.body:
